@@ -101,6 +101,16 @@ register("C17",
     "Trusted: engine/microai incl. its model of std::vector / valarray / the PairingHeap code it interprets; weights bounded far below DBL_MAX.",
     "symbolic interpretation (decision trees over path-length comparisons) vs Bellman-Ford reference on enumerated small weights",
     "DESIGN.md §5 C17")
+register("C11",
+    "Decides, for every path / call site: a pin is offered to a connector end only when its class matches and it is free or not exclusive "
+    "(propositional entailment over the enclosing conditions); only usePin/freeActivePin touch the pin-user bookkeeping and pins are freed "
+    "before every rerouting round; temporary pin visibility is removed on every path of generatePath; checkpoint direction masks are "
+    "restored whenever they were applied; every function that replaces a shape's geometry repositions all of its pins; pin positions are "
+    "the documented affine functions of the shape's bounding box (symbolic); default pin directions follow the attachment position. "
+    "Does not decide that the cheapest pin is chosen nor numeric end-point equality after moves.",
+    "Trusted: clang AST/CFG; engine/microai; offsetBoundingBox abstracted to a symbolic box.",
+    "guarded-by entailment, who-writes, CFG pairing rules, symbolic affine evaluation of pin positions, finite direction table",
+    "DESIGN.md §5 C11")
 for _p, _r in {
  "C06": "equality of route costs between an incrementally edited router and a fresh one quantifies over run-time visibility-graph contents after arbitrary edit histories; no rule over code shape is a necessary condition of it",
  "C12": "tree-ness and terminal preservation of hyperedges are invariants of dynamically rewritten run-time graphs; not visible in code shape",
